@@ -112,3 +112,184 @@ def walk_decomposition_ok(G, attr, walks, weights, weight_type, ignore=(), cons=
     if why:
         return why
     return subset_constraints_covered(cons, walks, coverage)
+# ======================================================================================
+# C15 / C16 oracles (added at the end; nothing above is changed)
+# ======================================================================================
+import itertools
+
+
+def _gen_by(g, a, mult, exact=True, tol=1e-6):
+    """is `a` a sum  sum_i x_i * g_i  with integer 0 <= x_i <= mult ?  (exhaustive)"""
+    for xs in itertools.product(range(mult + 1), repeat=len(g)):
+        s = sum(x * v for x, v in zip(xs, g))
+        if (s == a) if exact else (abs(s - a) <= tol):
+            return True
+    return False
+
+
+def _partition_ok(g, cons, exact=True, tol=1e-6):
+    """every element of g assigned to exactly one part, part sums equal the constraint's numbers"""
+    t = len(cons)
+    for assign in itertools.product(range(t), repeat=len(g)):
+        sums = [0] * t
+        for v, j in zip(g, assign):
+            sums[j] += v
+        if all(((s == c) if exact else (abs(s - c) <= tol)) for s, c in zip(sums, cons)):
+            return True
+    return False
+
+
+def genset_ok(numbers, total, sol, mult=1, parts=None, exact=True, tol=1e-6):
+    """C15: non-negative values, sum == total, every input number a sub-multiset sum with
+    multiplicities <= mult, partition constraints respected.  Returns None or (reason, tag)."""
+    conv = (lambda x: F(x)) if exact else float
+    g = [conv(x) for x in sol]
+    if any(v < (0 if exact else -tol) for v in g):
+        return ("negative element in the generating set", "negative")
+    s = sum(g)
+    if (s != conv(total)) if exact else (abs(s - float(total)) > tol):
+        return (f"elements sum to {s}, not to total {total}", "sum")
+    for a in numbers:
+        if not _gen_by(g, conv(a), mult, exact, tol):
+            return (f"input number {a} is not a sum of elements of {sol} with multiplicities <= {mult}", ("number", a))
+    for c in (parts or []):
+        if not _partition_ok(g, [conv(x) for x in c], exact, tol):
+            return (f"partition constraint {c} cannot be met by {sol}", "partition")
+    return None
+
+
+def min_genset(numbers, total, mult=1, parts=None, lowerbound=1, maxsize=4):
+    """exhaustive minimum size (>= lowerbound) of an integer generating multiset over 0..total,
+    or None when there is none of size <= maxsize.  Returns (size, witness)."""
+    total = int(total)
+    nums = sorted(set(int(a) for a in numbers))
+    for k in range(max(1, lowerbound), maxsize + 1):
+        for g in itertools.combinations_with_replacement(range(total + 1), k):
+            if sum(g) != total:
+                continue
+            if genset_ok(nums, total, g, mult, parts) is None:
+                return k, list(g)
+    return None
+
+
+def setcover_ok(universe, subsets, chosen):
+    """C15: chosen are indices of subsets and every element of the universe lies in a chosen subset"""
+    for i in chosen:
+        if not (isinstance(i, int) and 0 <= i < len(subsets)):
+            return f"{i!r} is not an index of a subset"
+    if len(set(chosen)) != len(chosen):
+        return "a subset index is returned twice"
+    for el in universe:
+        if not any(el in subsets[i] for i in chosen):
+            return f"element {el!r} is not covered"
+    return None
+
+
+def min_setcover(universe, subsets, weights):
+    """exhaustive minimum total weight of a cover (2^n subsets), None when there is no cover"""
+    n = len(subsets); best = None
+    for mask in range(1 << n):
+        ch = [i for i in range(n) if mask >> i & 1]
+        if setcover_ok(universe, subsets, ch) is None:
+            w = sum(F(weights[i]) for i in ch)
+            if best is None or w < best[0]:
+                best = (w, ch)
+    return best
+
+
+def flow_node_types(G, starts=(), ends=(), acyclic=True):
+    """per node the conservation requirement MinErrorFlow's documentation states:
+    'eq' in == out; 'start' out >= in; 'end' in >= out; 'free' none.  On graphs with cycles the
+    additional starts/ends are documented not to apply."""
+    ty = {}
+    for v in G.nodes():
+        s = G.in_degree(v) == 0 or (acyclic and v in starts)
+        t = G.out_degree(v) == 0 or (acyclic and v in ends)
+        ty[v] = "free" if (s and t) else "start" if s else "end" if t else "eq"
+    return ty
+
+
+def is_flow(G, x, types, tol=0):
+    """x: {edge: value}.  Returns None or a reason."""
+    for e, v in x.items():
+        if v < -tol:
+            return f"negative value {v} on {e}"
+    for v in G.nodes():
+        i = sum(x[e] for e in G.in_edges(v)); o = sum(x[e] for e in G.out_edges(v))
+        t = types[v]
+        if t == "eq" and abs(i - o) > tol:
+            return f"conservation violated at {v!r}: in {i} out {o}"
+        if t == "start" and o - i < -tol:
+            return f"node {v!r} (start) has out {o} < in {i}"
+        if t == "end" and i - o < -tol:
+            return f"node {v!r} (end) has in {i} < out {o}"
+    return None
+
+
+def flow_cost(G, x, f, charged, scale, types, lam=0, scaled=True):
+    """sum over charged edges of (scale_e *) |f_e - x_e|  (+ lam * flow entering at start-capable nodes)"""
+    c = sum((scale.get(e, 1) if scaled else 1) * abs(f[e] - x[e]) for e in charged)
+    if lam and scaled:
+        for v in G.nodes():
+            if types[v] in ("start", "free"):
+                i = sum(x[e] for e in G.in_edges(v)); o = sum(x[e] for e in G.out_edges(v))
+                c += lam * max(0, o - i)
+    return c
+
+
+def min_l1_flow(G, f, charged, scale, types, lam=0, bound=None, budget=400000):
+    """exhaustive minimum of flow_cost over INTEGER flows 0 <= x_e <= bound on all edges of G
+    (bound default = sum of the charged values, which loses nothing: in a path/cycle decomposition of an
+    optimal flow every component contains a charged edge with x_e <= f_e).  Depth-first over the edges,
+    checking each node as soon as its last incident edge is assigned, with cost-based pruning.
+    Returns (cost, witness) or None if the node budget was exhausted."""
+    es = list(G.edges())
+    if bound is None:
+        bound = int(sum(F(f[e]) for e in charged))
+    last = {}
+    for idx, e in enumerate(es):
+        last[e[0]] = idx; last[e[1]] = idx
+    done_at = {}
+    for v, idx in last.items():
+        done_at.setdefault(idx, []).append(v)
+    x = {}; best = [None, None]; steps = [0]
+    ch = set(charged)
+    inn = {v: 0 for v in G.nodes()}; out = {v: 0 for v in G.nodes()}
+
+    def node_ok(v):
+        t = types[v]
+        if t == "eq": return inn[v] == out[v]
+        if t == "start": return out[v] >= inn[v]
+        if t == "end": return inn[v] >= out[v]
+        return True
+
+    def rec(idx, cost):
+        steps[0] += 1
+        if steps[0] > budget:
+            raise TimeoutError
+        if best[0] is not None and cost >= best[0]:
+            return
+        if idx == len(es):
+            c = cost
+            if lam:
+                for v in G.nodes():
+                    if types[v] in ("start", "free"):
+                        c += lam * max(0, out[v] - inn[v])
+            if best[0] is None or c < best[0]:
+                best[0] = c; best[1] = dict(x)
+            return
+        e = es[idx]; u, v = e
+        # try values nearest to f first so that pruning bites early
+        order = sorted(range(bound + 1), key=lambda val: abs(val - (f[e] if e in ch else 0)))
+        for val in order:
+            x[e] = val; out[u] += val; inn[v] += val
+            if all(node_ok(w) for w in done_at.get(idx, [])):
+                rec(idx + 1, cost + (scale.get(e, 1) * abs(F(f[e]) - val) if e in ch else 0))
+            out[u] -= val; inn[v] -= val
+        x.pop(e, None)
+
+    try:
+        rec(0, F(0))
+    except TimeoutError:
+        return None
+    return best[0], best[1]
